@@ -205,7 +205,7 @@ class Run:
     def scan_assumptions(self):
         """mechanical scan of everything that is assumed rather than proved in overlays and prelude"""
         import glob
-        out = {'assume_specification': [], 'external_body_axioms': [], 'uninterp_spec_fns': [], 'assume_or_admit': []}
+        out = {'assume_specification': [], 'external_body_axioms': [], 'uninterp_spec_fns': [], 'assume_or_admit': [], 'site_assumptions': []}
         files = sorted(glob.glob(os.path.join(VERIF, 'contracts', '*.vspec')) + glob.glob(os.path.join(VERIF, 'verus', '*.rs')))
         for f in files:
             txt = open(f).read()
@@ -219,7 +219,12 @@ class Run:
             for ln, line in enumerate(txt.split('\n'), 1):
                 code = line.split('//')[0]
                 if re.search(r'(?<![A-Za-z_])(assume|admit)\s*\(', code) and 'assume_specification' not in code:
-                    out['assume_or_admit'].append(f'{rel}:{ln}')
+                    if '/*@assumed closure-glue*/' in line:
+                        # the one whitelisted kind: the effect of a T15-converted closure on the state it captured by &mut
+                        # (invisible to Verus), stated at the exits of the converted function and reported here
+                        out.setdefault('site_assumptions', []).append(f'{rel}:{ln}: ' + code.strip()[:160])
+                    else:
+                        out['assume_or_admit'].append(f'{rel}:{ln}')
         return out
 
     def verus_unit(self):
@@ -428,9 +433,19 @@ def main():
         if not viol and run.deferred_undecided:
             raise Undecided('; '.join(run.deferred_undecided))
     except Undecided as e:
-        run.evidence([], 'undecided: ' + str(e)[:300])
-        print(f"UNDECIDED property={a.prop} {e}")
-        sys.exit(2)
+        viol = []
+        if not a.replay:
+            try:
+                import native_unit
+                viol = native_unit.witness_on_undecided(run, str(e))
+            except Exception as e2:
+                run.notes.append(f'witness search error: {e2}')
+        if not viol:
+            run.evidence([], 'undecided: ' + str(e)[:300])
+            print(f"UNDECIDED property={a.prop} {e}")
+            sys.exit(2)
+        run.notes.append('verifier undecided: ' + str(e)[:300])
+        run.failures.extend(viol)
     except subprocess.TimeoutExpired as e:
         run.evidence([], 'undecided: timeout')
         print(f"UNDECIDED property={a.prop} timeout {e}")
